@@ -599,6 +599,12 @@ class RecordMap(ShiftPipeAction):
                 )
         else:
             if out.shape[0] < 2:
+                # the composite's row record is named by the columns of out: each probe cell takes the name of the column it landed in
+                landed_in = {rso[c].iloc[0]: c for c in rso.columns}
+                rsi = rsi.copy()
+                for c in rsi.columns:
+                    if c not in s1.blocks_in.control_table_keys:
+                        rsi[c] = [landed_in.get(v, v) for v in rsi[c]]
                 return RecordMap(
                     blocks_in=RecordSpecification(
                         control_table=rsi,
